@@ -1,5 +1,5 @@
 from .. import facts
-from ..rules import image, geometry, codec, status
+from ..rules import image, geometry, codec, status, prefetch
 
 
 def run(ck):
@@ -14,3 +14,4 @@ def run(ck):
     codec.r1_codec(ck, P, ck.tier)          # C03-R4 = C10-R2: partial-byte stores preserve their neighbours
     if ck.tier == 'thorough':
         codec.r1_codec(ck, P, ck.tier, be=True)
+    prefetch.r11_tail_access_needs_remaining_count(ck, P, 'C03-R8')
